@@ -293,6 +293,10 @@ func (c *FSContext) Renumber(from, to int32) sys.Errno {
 		return sys.EBADF
 	} else if fromFile.IsPreopen {
 		return sys.ENOTSUP
+	} else if from == to {
+		// Renumbering a descriptor onto itself is a no-op: without this, the
+		// file would be closed below while its entry stays in the table.
+		return 0
 	}
 
 	// If toFile is already open, we close it to prevent windows lock issues.
